@@ -18,13 +18,6 @@ Proof.
   - intros [<-|H]; [left; reflexivity|right; eapply IH; exact H].
 Qed.
 
-Lemma nth_opt_In {A} (l : list A) n x : nth_opt l n = Some x -> In x l.
-Proof.
-  revert n; induction l as [|y t IH]; intros [|n]; cbn; intros H; try discriminate.
-  - injection H as ->. left; reflexivity.
-  - right. eapply IH. exact H.
-Qed.
-
 Definition within (U p : list N) := Forall (fun x => In x U) p.
 
 Lemma sweep_within U cids choose : (forall c, In c cids -> In c U) ->
